@@ -170,6 +170,17 @@ func (fc *fnCtx) specEnv(st *State, extra map[string]Val) *SpecEnv {
 		}
 		fc.cellAlloc[a.Comment] = a
 	}
+	// the hidden index of the range loop being specified: the cell read first in its header
+	// (an inner range loop's index is also written inside the outer loop: not a criterion)
+	if t.curLoop != nil && t.curLoop.header.Comment == "rangeindex.loop" && len(t.curLoop.header.Instrs) > 0 && fc.fn == t.curLoop.header.Parent() {
+		if ld, ok := t.curLoop.header.Instrs[0].(*ssa.UnOp); ok {
+			if a, ok := ld.X.(*ssa.Alloc); ok && a.Comment == "rangeindex" {
+				if v, ok := st.cells[a]; ok && v != "" {
+					env.vars["rangeindex"] = Val{T: v, Ty: a.Type().(*types.Pointer).Elem()}
+				}
+			}
+		}
+	}
 	// escaping locals live in the heap
 	for _, a := range sortedAllocs(fc.escaping) {
 		if a.Comment == "" {
